@@ -301,7 +301,7 @@ func historyFamily(w *runner.W, programNo *int64) bool {
 	ok := true
 	enumerate(w.Quick(), func(p *program) bool {
 		switch p.family {
-		case "chain2", "split", "size":
+		case "chain2", "split", "size", "arglist", "delim":
 			return true
 		}
 		*programNo++
